@@ -652,6 +652,17 @@ fn gen_factorize(ctx: &mut Ctx) {
         do_factorize(ctx, true, &n, e, vec![], None);
         do_factorize(ctx, false, &n, e, vec![], None);
     }
+    // high powers of small primes times a small composite: the joint gcd of a batch is n itself on
+    // practically every batch; the batched inversion must fall back on a single coordinate (D17)
+    {
+        let n = (BigInt::from(1) << 100) * 15;
+        do_factorize(ctx, true, &n, "2:100,3:1,5:1", vec![], None);
+        do_factorize(ctx, false, &n, "2:100,3:1,5:1", vec![], None);
+        let n = num::pow::pow(BigInt::from(3), 50) * num::pow::pow(BigInt::from(5), 49) * 7;
+        do_factorize(ctx, true, &n, "3:50,5:49,7:1", vec![], None);
+        let n = (BigInt::from(1) << 70) * 3 * 49;
+        do_factorize(ctx, true, &n, "2:70,3:1,7:2", vec![], None);
+    }
     {
         let n = ((BigInt::from(1) << 107) - 1) * 105;
         do_factorize(ctx, true, &n, "3:1,5:1,7:1,162259276829213363391578010288127:1", vec![], None);
@@ -840,7 +851,9 @@ fn gen_scripted(ctx: &mut Ctx) {
 /// `rust-number-theory <config>` with to_find = factorization and an integer input: stdout is a JSON
 /// object {"p": e, …} in insertion (= increasing) order; rendered `p:e,…`
 fn do_cli_fact(ctx: &mut Ctx, n: &BigInt) {
-    let cfg = format!("to_find = ['factorization']\n[input]\ninteger = '{}'\n", n);
+    // other commands of the same run are refused for an integer input (stderr) and must not stop the loop
+    let tf = to_find_list("factorization", &["discriminant", "prime-decomposition", "resultant", "integral_basis", "factorization-mod-p"], variant_of(&[n.to_string()]) + 1);
+    let cfg = format!("to_find = {}\n[input]\ninteger = '{}'\n", tf, n);
     if let Some(out) = run_cli(&cfg) {
         let ans = if out.starts_with("panic") {
             out
@@ -885,6 +898,7 @@ fn gen_rfactor(ctx: &mut Ctx) {
         (&two64 - big(59)) * big(1000003),
         (BigInt::from(1) << 89) - 1,
         ((BigInt::from(1) << 127) - 1) * 15,
+        (BigInt::from(1) << 100) * 15,
     ]);
     for n in &cs {
         do_cli_fact(ctx, n);
